@@ -12,7 +12,8 @@ MCConfigs ==
             insecureAuth : {TRUE}, authBackend : {TRUE}, lmtpBackend : {FALSE}, binarymime : {TRUE}, dsn : {FALSE}] : TRUE }
 
 \* ("auth": the silence may also fall into a SASL exchange)
-MCAlphabet == {"greet", "mail", "rcpt", "bdat", "idle", "quit", "auth"}
+\* ("stall": the silence falls into a message body or a chunk)
+MCAlphabet == {"greet", "mail", "rcpt", "bdat", "idle", "quit", "auth", "stall"}
 
 DumpEdge ==
   PrintT(<<"EDGE", ToJson([cfg |-> cfg, src |-> st, osrc |-> obs, lbl |-> last', dst |-> st', odst |-> obs'])>>)
